@@ -66,3 +66,26 @@ Example C17_nonvacuous :
   length (hist st) = 3%nat /\ map (fun s => option_map ifit (s_max s)) (hist st) = [Some (5 # 1); Some (1 # 1); Some (2 # 1)].
 Proof. vm_compute. auto. Qed.
 Print Assumptions C17_nonvacuous.
+
+(* ------------------------------------------------------------------------------------------------
+   THE TIE TO THE SOURCE.  For the generational family the loop model simulates the run GENERATED from base/_ea.py
+   (props/C01.v: C01_code_fit); the history the code keeps is, entry by entry, the model's history.  Hence on the
+   generated run itself: one entry per executed generation with keep_history, none without. *)
+From TF Require Import Py CodeEqLoop CodeEqStep.
+From TFG Require Import GenLoop.
+
+Theorem C17_src_fit_history : forall (G P : Type) (dG : G) (dP : P) (g2p : G -> P) (f : P -> Q) par_value
+    (newpop : EvolutionaryAlgorithm G P -> list G) (var : state G P -> list G) (self0 : EvolutionaryAlgorithm G P) (gs0 : list G) (n : nat),
+  sim G P dG dP self0 (init_state G P) -> (0 < n)%nat -> length gs0 = n -> (forall st, length (var st) = n) -> (1 <= ea_iters G P self0)%Z ->
+  (ea_n_jobs G P self0 <= 1)%Z -> ea_aim G P self0 <> NegInf -> fst (ea_on_generation G P self0) = true ->
+  (forall m, ea_no_increase_num G P self0 = Some m -> (0 <= m)%Z) ->
+  (forall s st, sim G P dG dP s st -> newpop s = var st) ->
+  let self := py_EvolutionaryAlgorithm_fit G P (fun s => set_pop_g G P s gs0) (fun s => set_pop_g G P s (newpop s))
+                                           (from_pop G P dG dP g2p f par_value) self0 in
+  let st := fit G P g2p (nf_of G P f self0) Generational (ea_elitism G P self0) (ea_keep_history G P self0)
+                (abs_aim (ea_aim G P self0)) (abs_nin (ea_no_increase_num G P self0)) var (Z.to_nat (ea_iters G P self0)) gs0 in
+  ea_stats G P self = map (entry_of G P dG dP) (hist st) /\
+  (ea_keep_history G P self0 = true -> length (ea_stats G P self) = gens st) /\
+  (ea_keep_history G P self0 = false -> ea_stats G P self = []).
+Proof. exact src_fit_history. Qed.
+Print Assumptions C17_src_fit_history.
